@@ -1,9 +1,11 @@
 package sym
 
 import (
+	"crypto/sha256"
 	"fmt"
 	"go/token"
 	"go/types"
+	"strings"
 )
 
 func registerIntrinsics(m *Machine) {
@@ -220,6 +222,39 @@ func registerIntrinsics(m *Machine) {
 			m.journal = append(m.journal, undo{f: func() { m.pools[p] = m.pools[p][:len(m.pools[p])-1] }})
 		}
 		return nil
+	}
+
+	// ---- crypto/sha256: native on concrete input, an uninterpreted function otherwise ----
+	in["crypto/sha256.Sum256"] = func(m *Machine, fr *frame, a []value) value {
+		data := a[0].([]value)
+		concrete := true
+		for _, d := range data {
+			if !d.(*Term).IsConst() {
+				concrete = false
+				break
+			}
+		}
+		out := make(array, 32)
+		if concrete {
+			b := make([]byte, len(data))
+			for i, d := range data {
+				b[i] = byte(d.(*Term).K)
+			}
+			sum := sha256.Sum256(b)
+			for i := range out {
+				out[i] = m.T.Const(8, uint64(sum[i]))
+			}
+			return out
+		}
+		var key strings.Builder
+		for _, d := range data {
+			fmt.Fprintf(&key, "%x_", m.T.StructHash(d.(*Term)))
+		}
+		h := sha256.Sum256([]byte(key.String()))
+		for i := range out {
+			out[i] = m.T.Var(fmt.Sprintf("sha!%x!%d", h[:6], i), 8)
+		}
+		return out
 	}
 
 	// ---- environment stubs ----
